@@ -1331,3 +1331,13 @@ def c11_q(ctx):
                   'locs[argmin(vals)], vals[argmin(vals)]',
                   'the returned location and value do not belong to the same (best) start: '
                   '{}'.format(show(rt)[:100]), fn=mz, node=rr[0])
+
+
+@obligation('C11-r', 'T2', 'no result buffer takes the dtype of a caller\'s array and then receives '
+            'computed values (shared sweep of C08-l, restricted to the modules this property is '
+            'anchored in; `*_like(x)` and `dtype=x.dtype` allocations)', floor=1,
+            necessary='acquired points and gradients are stored as computed (numpy truncates floats silently when they are assigned into an '
+                      'integer array)')
+def c11_dtype(ctx):
+    from .base import inherited_dtype_obligation
+    inherited_dtype_obligation(ctx, ['elfi.methods.bo.acquisition', 'elfi.methods.bo.utils', 'elfi.methods.inference.bolfi'])
